@@ -526,14 +526,7 @@ func (e Element) Write(w io.Writer, indent int) error {
 	if err := writeIndent(w, indent, "<", e.Name); err != nil {
 		return err
 	}
-	// A conditional attribute is always written over several lines, so the attributes of an
-	// element that has one cannot stay on the line of the tag.
-	indentAttrs := e.IndentAttrs
-	for _, a := range e.Attributes {
-		if _, isConditional := a.(ConditionalAttribute); isConditional {
-			indentAttrs = true
-		}
-	}
+	indentAttrs := e.indentAttrs()
 	for i := range e.Attributes {
 		a := e.Attributes[i]
 		// Only the conditional attributes get indented.
@@ -666,6 +659,26 @@ func isBlockNode(node Node) bool {
 	return false
 }
 
+// indentAttrs reports whether the attributes are written on their own lines: when they are in the
+// source, or when one of them is always written over several lines (a conditional attribute, an
+// expression that gofmt spreads over lines) and so cannot stay on the line of the tag.
+func (e Element) indentAttrs() bool {
+	if e.IndentAttrs {
+		return true
+	}
+	for _, a := range e.Attributes {
+		switch a := a.(type) {
+		case ConditionalAttribute:
+			return true
+		case ExpressionAttribute:
+			if lines := a.formatExpression(); len(lines) > 1 || strings.Contains(lines[0], "\n") {
+				return true
+			}
+		}
+	}
+	return false
+}
+
 // indentChildren reports whether the children are written on their own lines: when they span
 // lines in the source, or when one of them always ends its line when it is written (comments,
 // component calls, children, control flow, script and style elements), in which case keeping the
@@ -692,7 +705,7 @@ func (e Element) indentChildren() bool {
 			}
 		}
 		// A child element that is written over several lines takes its parent with it.
-		if child, isElement := n.(Element); isElement && child.indentChildren() {
+		if child, isElement := n.(Element); isElement && (child.indentChildren() || child.indentAttrs()) {
 			return true
 		}
 	}
